@@ -64,7 +64,7 @@ func runParseBatch(c *Ctx, jobs []*SynJob, drv string, refs []*parseRef, judge j
 			}
 			continue
 		}
-		cases = append(cases, &DCase{G: ref.job.Name, Op: "parse", Feed: &DFeed{Toks: ref.job.Names(ref.toks), Fail: ref.fail}})
+		cases = append(cases, &DCase{G: ref.job.Name, Op: "parse", Feed: &DFeed{Toks: ref.job.Names(ref.toks), Fail: ref.fail, Render: len(cases)%2 == 0}})
 		live = append(live, ref)
 	}
 	if len(cases) == 0 {
@@ -417,6 +417,26 @@ func judgeC06(c *Ctx, ref *parseRef, p *DPResult) (string, bool, interface{}) {
 		if p.Custom != 0 {
 			return "syntax error carries a custom error", true, exp
 		}
+		if p.Text != "" && !sameList(p.Exp, p.ExpAfter) {
+			return fmt.Sprintf("printing the error (Error(), String()) changed its expected-token list from %v to %v", p.Exp, p.ExpAfter), true, exp
+		}
+		if p.Text != "" {
+			half := p.Text[:len(p.Text)/2]
+			_ = half
+			lines := strings.Split(p.Text, "\n")
+			if len(lines) > 2 && lines[0] != "" {
+				// Error() was called twice: both renderings must be identical
+				second := ""
+				for k := 1; k < len(lines); k++ {
+					if lines[k] == lines[0] {
+						second = lines[k]
+					}
+				}
+				if second == "" {
+					return "calling Error() twice on the same error gives two different texts: " + trunc(p.Text, 300), true, exp
+				}
+			}
+		}
 		return "", i > 0, exp
 	}
 }
@@ -545,6 +565,18 @@ func judgeC07(c *Ctx, ref *parseRef, p *DPResult) (string, bool, interface{}) {
 		}
 		return "", attempted, exp
 	}
+}
+
+func sameList(a, b []string) bool {
+	if len(a) != len(b) {
+		return false
+	}
+	for i := range a {
+		if a[i] != b[i] {
+			return false
+		}
+	}
+	return true
 }
 
 func replayJudge(id string) judgeFn {
